@@ -298,30 +298,34 @@ def r3_cache(chk: Check):
     defined = class_attrs(idcls)
     nret = 0
     flag_attrs = set()
-    for n in g.live:
-        if n.kind == "stmt" and isinstance(n.ast, ast.Return) and n.ast.value is not None:
-            c = rd.canon(n.ast.value, n)
-            if "._raw_identifier" not in c:
-                continue
-            nret += 1
-            base = c.rsplit("._raw_identifier", 1)[0]
-            gs = [(rd.canon(t.ast, t), pol) for t, pol in g.guards(n) if t.kind == "test"]
-            sealed = (f"{base}._sealed", True) in gs
-            notnone = (f"{c} is not None", True) in gs or (f"{c} is None", False) in gs
-            flags = [(txt, pol) for txt, pol in gs if txt.startswith(c + ".")]
-            key = chk.fkey(f, "return cached identifier")
-            loc = chk.loc(f.module, n.ast)
-            chk.require(sealed, key + " [sealed]", "cached identifier returned without testing that the configuration is sealed", loc)
-            chk.require(notnone, key + " [not None]", "cached identifier returned without testing it is not None", loc)
-            okflag = False
-            for txt, pol in flags:
-                attr = txt[len(c) + 1:]
-                if pol is False and "(" not in attr:
-                    flag_attrs.add(attr)
-                    okflag = True
-            chk.require(okflag, key + " [loop-free]",
-                        "cached identifier returned without testing its loop flag: an identifier computed inside a cycle "
-                        "depends on the path and must not be reused", loc)
+    from ..dataflow import path_traces
+
+    for tr in path_traces(f.node, alpha=False, pathsens=True):
+        if not tr.end.startswith("return ") or "._raw_identifier" not in tr.end:
+            continue
+        c = tr.end[len("return "):]
+        if not c.endswith("._raw_identifier"):
+            continue
+        nret += 1
+        base = c.rsplit("._raw_identifier", 1)[0]
+        gs = list(tr.conds)
+        sealed = (f"{base}._sealed", True) in gs
+        notnone = (f"{c} is None", False) in gs
+        flags = [(txt, pol) for txt, pol in gs if txt.startswith(c + ".")]
+        key = chk.fkey(f, "return cached identifier")
+        last = [n for n in tr.nodes if n.kind == "stmt" and isinstance(n.ast, ast.Return)]
+        loc = chk.loc(f.module, last[-1].ast if last else f.node)
+        chk.require(sealed, key + " [sealed]", "cached identifier returned without testing that the configuration is sealed", loc)
+        chk.require(notnone, key + " [not None]", "cached identifier returned without testing it is not None", loc)
+        okflag = False
+        for txt, pol in flags:
+            attr = txt[len(c) + 1:]
+            if pol is False and "(" not in attr:
+                flag_attrs.add(attr)
+                okflag = True
+        chk.require(okflag, key + " [loop-free]",
+                    "cached identifier returned without testing its loop flag: an identifier computed inside a cycle "
+                    "depends on the path and must not be reused", loc)
     chk.min_instances(nret, 1, "cache-hit return in HashComputer.compute")
 
     # (ii-b) identifiers(): the cache is *read* only when sealed and filled -- decision table over (cached raw, cached full, sealed, only_raw)
